@@ -40,6 +40,11 @@ def glyph_bytes(g):
             small = g.get("byte_args") and -128 <= dx <= 127 and -128 <= dy <= 127
             if small:
                 flags = 0x0002       # the two offsets as signed bytes
+            match = g.get("match_points") and i > 0
+            if match:
+                # the arguments are point numbers (unsigned): point dx of the composite so far, point dy of this component
+                flags &= ~0x0002
+                small = g.get("byte_args") and dx <= 255 and dy <= 255
             if i < len(comps) - 1:
                 flags |= 0x0020
             tail = b""
@@ -53,7 +58,10 @@ def glyph_bytes(g):
             elif len(comp) == 7:    # (gid, dx, dy, xscale, scale01, scale10, yscale): WE_HAVE_A_TWO_BY_TWO
                 flags |= 0x0080
                 tail = struct.pack(">hhhh", *comp[3:7])
-            out += (struct.pack(">HHbb", flags, gid, dx, dy) if small else struct.pack(">HHhh", flags, gid, dx, dy)) + tail
+            if match:
+                out += (struct.pack(">HHBB", flags & ~0x0001, gid, dx, dy) if small else struct.pack(">HHHH", flags | 0x0001, gid, dx, dy)) + tail
+            else:
+                out += (struct.pack(">HHbb", flags, gid, dx, dy) if small else struct.pack(">HHhh", flags, gid, dx, dy)) + tail
         return out
     contours = g.get("contours") or []
     if not contours:
@@ -79,7 +87,34 @@ def glyph_bytes(g):
     return out + flags + xb + yb
 
 
+def glyph_points(g, glyphs):
+    """The outline points of a glyph as the glyf format defines them (components transformed, then placed by offsets or by
+    matching points; transformed coordinates cut toward zero)."""
+    if "components" not in g:
+        return [(p[0], p[1]) for c in (g.get("contours") or []) for p in c]
+    acc = []
+    for i, comp in enumerate(g["components"]):
+        gid, dx, dy = comp[:3]
+        pts = glyph_points(glyphs[gid], glyphs)
+        if len(comp) == 5:
+            xa, s01, s10, ya = comp[3], 0, 0, comp[4]
+        elif len(comp) == 7:
+            xa, s01, s10, ya = comp[3:7]
+        else:
+            xa, s01, s10, ya = 16384, 0, 0, 16384
+        pts = [(int((x * xa + y * s10) / 16384.0), int((x * s01 + y * ya) / 16384.0)) for x, y in pts]
+        if g.get("match_points") and i > 0:
+            ox, oy = acc[dx][0] - pts[dy][0], acc[dx][1] - pts[dy][1]
+        else:
+            ox, oy = dx, dy
+        acc += [(x + ox, y + oy) for x, y in pts]
+    return acc
+
+
 def glyph_bbox(g, glyphs):
+    if "components" in g and g.get("match_points"):
+        pts = glyph_points(g, glyphs)
+        return (min(p[0] for p in pts), min(p[1] for p in pts), max(p[0] for p in pts), max(p[1] for p in pts)) if pts else None
     if "components" in g:
         bb = None
         for comp in g["components"]:
